@@ -64,6 +64,15 @@ func runC07(c *Ctx) {
 
 	// NegotiateContentEncoding
 	fe := p.Fn("rt/middleware.NegotiateContentEncoding")
+	// every offer is weighed: the loops over offers and over the acceptable codings end when the elements are exhausted —
+	// no quality reached so far ends them (the parser admits and orders weights above 1)
+	{
+		ls := sliceLoops(fe, nil)
+		c.obRF("R07.2", fe, "encoding-loops", len(ls) >= 2, "NegotiateContentEncoding ranges over the offers and the accepted codings", fmt.Sprintf("%d loops", len(ls)))
+		for _, l := range ls {
+			c.obI("R07.2", l.Test, "every-offer-is-weighed", l.noEarlyExit(), "the selection loops of NegotiateContentEncoding are left only when their elements are exhausted", "a loop can be left from its body: later offers / codings of higher weight are never looked at")
+		}
+	}
 	for _, r := range returnsOf(fe) {
 		ok, bad := allOrigins(r.Results[0], oConstString("identity", ""), func(o Origin) bool {
 			ad, ok := derefLoad(o.V)
